@@ -30,7 +30,7 @@ RULE = ('leg1: all permutations of every hash-ordered iteration and all id-rank 
         'subprocesses; distinct = distinct (scenario, output) / (case, fingerprint)')
 ASSUMPTIONS = ['the 2^32 hash seeds are not enumerated; the only seams through which a seed reaches the output '
                '(set iteration, id comparison) are enumerated instead and interception completeness is confirmed by '
-               'subprocess runs under 5 seeds',
+               'subprocess runs under 3 (quick) / 5 (thorough) seeds',
                'memo fields (_total_size, cached hashes) are not part of a tree\'s observable state']
 MANIFEST = {
     'technique': 'choice-point exploration of hidden iteration order / address ties on the real code, explicit enumeration of invocation histories, fingerprint comparison of inputs; cross-process runs as confirmation',
@@ -48,7 +48,7 @@ MEMO = ('_total_size', '_LeafNode__hash', '_KeyValuePairNode__hash')
 
 # ---- scenarios -----------------------------------------------------------------------------------------------------
 DOC_A = {'k1': 1, 'k2': [1, 2, 3], 'k3': 'abc', 'k4': {'x': 1}, 'k5': None, 'k6': True}
-DOC_B = {'k1': 2, 'k7': [1, 3], 'k8': 'abd'}
+DOC_B = {'k1': 2, 'k7': [1, 3], 'k8': 'abd', 'k9': 'x', 'k10': 7, 'k11': [], 'k12': 'y'}
 XML_A = '<root a="1" b="2"><item id="1">one</item><item id="2">two</item><x/></root>'
 XML_B = '<root a="1" c="3"><item id="1">uno</item><y k="v"/><item id="3">three</item></root>'
 CSV_A = 'name,qty\napple,1\npear,2\nfig,3\n'
@@ -266,7 +266,7 @@ def _leg3_shard(i, n, tier, payload):
 def lib_cases(tier):
     import itertools
     if tier == 'quick':
-        docs = [[], [1], ['1'], [True], [1, 1], [1, '1'], ['1', 1], [1, True], [0, 1], [1, 2, 3], [0, 1, 2]]
+        docs = [[], [1], ['1'], [True], [1, '1'], ['1', 1], [1, 2, 3], [0, 1, 2]]
     else:
         alpha = (1, '1', True, 0)
         docs = []
@@ -354,6 +354,9 @@ def _leg5_shard(i, n, tier, payload):
 
 def run(ctx):
     res = Result()
+    import time as _t
+    t_start = _t.time()
+    marks = {}
     import tempfile
     import shutil
     dirp = tempfile.mkdtemp(prefix='gtverif_c07_')
@@ -361,7 +364,7 @@ def run(ctx):
         files = scenario_files(dirp)
         scs = scenarios(ctx.tier)
         # leg 4 first: fresh-process outputs under several seeds (also the reference for leg 2)
-        seeds = sorted({0, 1, 2, 3, (ctx.seed % 1000) + 4})
+        seeds = sorted({0, 1, (ctx.seed % 1000) + 4}) if ctx.quick else sorted({0, 1, 2, 3, (ctx.seed % 1000) + 4})
         jobs = [(sc, argv_of(sc, files), s) for sc in scs for s in seeds]
         sub = {}
         for sc, seed, rc, out in ctx.map(_subproc, jobs):
@@ -372,6 +375,7 @@ def run(ctx):
                          f'seed {seed}: rc={rc} {out[:300]!r} vs first seed rc={sub[sc][0]} {sub[sc][1][:300]!r}')
             sub.setdefault(sc, (rc, out))
             res.outcomes.add(h(('leg4', sc, rc, out)))
+        marks['leg4_subprocesses_s'] = round(_t.time() - t_start, 1)
         res.extra['leg4_subprocess_runs'] = len(jobs)
         res.extra['leg4_seeds'] = seeds
         # in-process reference: each scenario alone in a pristine forked child of this (so far main()-free) process
@@ -406,9 +410,14 @@ def run(ctx):
         res.samples.append({'leg': 2, 'history': [[s[0], list(s[1]), list(s[2])] for s in seqs[len(seqs) // 3]]})
     finally:
         shutil.rmtree(dirp, ignore_errors=True)
+    marks['leg2_histories_done_s'] = round(_t.time() - t_start, 1)
     res.merge(run_sharded(ctx, __name__, '_leg1_shard', ctx.workers * 2))
+    marks['leg1_done_s'] = round(_t.time() - t_start, 1)
     res.merge(run_sharded(ctx, __name__, '_leg3_shard', ctx.workers * 4))
+    marks['leg3_done_s'] = round(_t.time() - t_start, 1)
     res.merge(run_sharded(ctx, __name__, '_leg5_shard', ctx.workers * 4))
+    marks['leg5_done_s'] = round(_t.time() - t_start, 1)
+    res.extra['elapsed_marks'] = marks
     res.samples.append({'leg': 1, 'a': {'k1': 1, 'k2': 1, 'k3': 1}, 'b': {}, 'flags': ['-k']})
     return res
 
